@@ -136,7 +136,7 @@ class Tracer(SymEval):
                 return self.iter_desc(it["recv"], env)      # same elements by value
             if m in ("map", "filter", "filter_map", "zip", "skip", "step_by", "take", "flat_map"):
                 inner = self.iter_desc(it["recv"], env)
-                extra = [self.eval(a, env) if a.get("k") != "closure" else ("closure", a, dict(env)) for a in it["args"]]
+                extra = [self.eval(a, env) for a in it["args"]]     # (closure literals go through e_closure, which remembers their environment)
                 return (m, inner) + tuple(extra)
         v = self.eval(it, env)
         if isinstance(v, tuple) and v and v[0] == "iterdesc":
